@@ -71,9 +71,15 @@ PARTIAL = ["C20_terminates ('every well-formed schema is generated with some fue
            "(C20_conforms_ranked: 2 per level) and for recursive schemas of the shape parse_schema produces when validating the field defaults "
            "terminates (C20_conforms_fuel: 5 * depth of the value + fd + 4); C20_default_cycle proves that the hypothesis on defaults cannot be "
            "dropped (R{f: R2 = {}}, R2{g: R = {}}: validate({}, R) never returns, RecursionError in the real code)",
-           "'accepted by the binary and container writers and read back' is not a Coq theorem over Python-level values here (it composes with "
-           "C10 validate => writer accepts and C01 round trip); it is decided on the implementation for every generated value by the direct "
-           "predicate; the C20_readable_* theorems give the facts the logical READERS need (ordinal range, time-of-day range, datetime range, 32 hex digits)"]
+           "'accepted by the binary and container writers and read back' is a Coq theorem for schemas with an acyclic reference graph "
+           "(C20_written_and_read_back, C20_container_read_back: every generated value validates, satisfies C10's wneed, is elaborated by the "
+           "default writer to a well-typed wire value, and is read back as its documented normalisation; a container written from "
+           "generate_many's values and flushed reads back as exactly their wire values; composition of C20_conforms, C10_writer_accepts_iff, "
+           "C01_roundtrip_normalised, C07 history_reads_back; Reals axioms through the float lemmas) under the computable side conditions "
+           "gen_side (gschb: acyclic / plain field types / safe defaults; genokb; schema side of data_ok); recursive types are outside; the "
+           "theorem speaks about stored values: for the logical readers it needs unions_plain (no union branch carries a logicalType -- known "
+           "finding K3: a value filed under a string-uuid branch it was not generated for); the direct predicate on the implementation "
+           "still decides the clause for every generated value; the C20_readable_* theorems give the facts the logical READERS need"]
 
 IMPORTS = ("From Coq Require Import String.\n"
            "From FA Require Import model.Base model.Value model.Schema model.Validate model.Gen.\n"
